@@ -699,6 +699,8 @@ def std_summaries():
     P[r'<&(?:mut )?(?:Vec<.*>|\[.*\]) as IntoIterator>::into_iter'] = slice_iter
     P[r'<(?:Vec<.*>|std::ops::Range<usize>|std::vec::IntoIter<.*>|std::slice::Iter(?:Mut)?<.*>|Enumerate<.*>|Rev<.*>|Skip<.*>|\[.*; \d+\]) as IntoIterator>::into_iter'] = into_iter_owned
     P[r'<(?:std::slice::Iter(?:Mut)?<.*>|std::ops::Range<usize>|std::vec::IntoIter<.*>|Enumerate<.*>|Rev<.*>|Skip<.*>|std::array::IntoIter<.*>) as Iterator>::next'] = it_next
+    P[r'<std::vec::Drain<.*> as IntoIterator>::into_iter'] = into_iter_owned
+    P[r'<std::vec::Drain<.*> as Iterator>::next'] = it_next
     P[r'<.* as DoubleEndedIterator>::next_back'] = it_next_back
     # Option as a 0 / 1 element iterator, chained iterators (both plain element lists)
     def opt_into_iter(se, env, pc, o):
